@@ -75,6 +75,8 @@ class SnpFlow(Flow):
         self.sites = {}         # construct -> kind ; every obligation site seen
         self.pairs = set()
         self.acc_keys = set()
+        self.adv_pairs = set()      # (P, S) that are advanced together somewhere in the function
+        self.prod_sites = []        # (construct, node, P, S)
 
     # ---- helpers
     def v(self, construct, node, msg):
@@ -159,6 +161,8 @@ class SnpFlow(Flow):
                 self.pairs.add((pk, sk))
                 c = "produce@%s(%s,%s)#%d" % (n.get("fn"), pk, sk, self.ctx.ordinal(f, n))
                 self.site(c, n, "producer")
+                if self.recording:
+                    self.prod_sites.append((c, n, pk, sk))
                 st = st.copy()
                 if (pk, sk) in st.prod:
                     self.v(c, n, "producer writes at a cursor that was not advanced after the previous production on some path")
@@ -217,6 +221,7 @@ class SnpFlow(Flow):
                 self.v(c, n, "value passed to %s is not the untruncated result of a producer on every path" % n.get("fn"))
             if pk is not None and sk is not None:
                 st.prod = st.prod - {(pk, sk)}
+                self.adv_pairs.add((pk, sk))
             st.unacc.pop(rk, None)
             if ak:
                 st.acc = st.acc | {ak}
@@ -332,6 +337,7 @@ class SnpFlow(Flow):
                 if done is not None:
                     del st.halfS[done]
                     st.prod = st.prod - {(tk, done)}
+                    self.adv_pairs.add((tk, done))
                 else:
                     if tk in st.halfP:
                         self.v(c, n, "cursor pointer advanced twice without the size being decreased")
@@ -352,6 +358,7 @@ class SnpFlow(Flow):
                 if done is not None:
                     del st.halfP[done]
                     st.prod = st.prod - {(done, tk)}
+                    self.adv_pairs.add((done, tk))
                 else:
                     if tk in st.halfS:
                         self.v(c, n, "remaining size decreased twice without the pointer being advanced")
@@ -674,6 +681,11 @@ class SnpRule(object):
             fl = SnpFlow(f, self)
             fl.run()
             n_funcs += 1
+            # pair consistency: a producer must be given the size that is advanced together with its pointer
+            for (c, node, pk, sk) in fl.prod_sites:
+                others = set(s2 for (p2, s2) in fl.adv_pairs if p2 == pk)
+                if others and sk not in others:
+                    fl.viol.setdefault(c, "producer writes at %s with size %s, but %s is advanced together with %s: the remaining size is not what bounds this write (%s)" % (pk, sk, pk, sorted(others), f.loc(node)))
             for c, (kind, loc) in sorted(fl.sites.items()):
                 ok = c not in fl.viol
                 chk.inst(rule, f, c, ok, fl.viol.get(c, kind), loc=loc)
